@@ -113,6 +113,13 @@ def cases(tier, seed):
             cs.append({'gen': 'matvec', 'routine': 'fast_matvec', 'M': M, 'N': N, 'RA': gens.rank_profile(rng, d, 'rand', 4), 'RB': gens.rank_profile(rng, d, 'rand', 4), 'RG': gens.rank_profile(rng, d, 'rand', 4),
                        'eps': 10 ** rng.uniform(-11, -2), 'guess': ['none', 'user'][(i + j) % 2], 'vals': ['gauss', 'decay'][i % 2], 'vseed': rng.randrange(2 ** 40), 'sidx': j,
                        'dtype': 'c128' if i % 3 == 2 else 'f64', 'scale': [1.0, 1.0, 1e-8, 1e4, 1e-15][(i // 2) % 5]})
+    # exhausted sweep budgets (nswp=1,2): the final-sweep branch of the C++ DMRG loop is reached only here. The accuracy/agreement contracts are about the default budget,
+    # so only acceptance, shape, well-formedness and finiteness are judged (and the sanitizer pass sees this branch); the two errors are recorded as observations
+    for i in range(12 if not T else 80):
+        d = rng.choice([2, 3, 4])
+        cs.append({'gen': 'matvec', 'routine': 'fast_matvec', 'M': [rng.randint(1, 5) for _ in range(d)], 'N': [rng.randint(1, 5) for _ in range(d)], 'RA': gens.rank_profile(rng, d, 'rand', 4),
+                   'RB': gens.rank_profile(rng, d, 'rand', 4), 'RG': gens.rank_profile(rng, d, 'rand', 4), 'eps': 10 ** rng.uniform(-10, -3), 'guess': ['none', 'user'][i % 2], 'vals': 'gauss',
+                   'vseed': rng.randrange(2 ** 40), 'sidx': 0, 'dtype': 'c128' if i % 3 == 2 else 'f64', 'scale': 1.0, 'nswp': 1 + (i // 2) % 2})
     return cs
 
 
@@ -236,10 +243,11 @@ def run_matvec(case, ctx, cnt):
     for backend, use_cpp in (('cpp', True), ('python', False)):
         torch.manual_seed(case['seed'] % (2 ** 31))
         before = cnt.n['dmrg_mv']
+        kwn = {'nswp': case['nswp']} if case.get('nswp') else {}
         if guess is not None:
-            y = ctx.lib('fast_matvec[%s](initial)' % backend, lambda a, b, c: a.fast_matvec(b, eps=eps, initial=c, use_cpp=use_cpp), A, x, guess)
+            y = ctx.lib('fast_matvec[%s](initial)' % backend, lambda a, b, c: a.fast_matvec(b, eps=eps, initial=c, use_cpp=use_cpp, **kwn), A, x, guess)
         else:
-            y = ctx.lib('fast_matvec[%s]' % backend, lambda a, b: a.fast_matvec(b, eps=eps, use_cpp=use_cpp), A, x)
+            y = ctx.lib('fast_matvec[%s]' % backend, lambda a, b: a.fast_matvec(b, eps=eps, use_cpp=use_cpp, **kwn), A, x)
         ran_cpp = cnt.n['dmrg_mv'] - before
         if use_cpp:
             ctx.count('cpp_calls:dmrg_mv', ran_cpp)
@@ -256,6 +264,14 @@ def run_matvec(case, ctx, cnt):
             ctx.viol(bkey + '/clause=ill-formed-result', '%s [%s]: %s' % (what, backend, e))
             continue
         err = dn.fro(dy - ref)
+        if case.get('nswp'):
+            ctx.count('exhausted_budget_executions[%s]' % backend)
+            if not bool(torch.isfinite(dy.abs().sum())):
+                ctx.viol(bkey + '/clause=non-finite(nswp=%d)' % case['nswp'], '%s [%s] nswp=%d: non-finite result' % (what, backend, case['nswp']))
+            if nref > 0:
+                ctx.metric('exhausted_budget_err_over_norm/%s/nswp=%d' % (backend, case['nswp']), err / nref)
+            res[backend] = (dy, ran_cpp)
+            continue
         allow = C_EPS * eps * nref + 1e3 * 2.3e-16 * srep
         ctx.count('dtype:' + case['dtype'])
         ctx.count('magnitude:%g' % case.get('scale', 1.0))
@@ -264,6 +280,20 @@ def run_matvec(case, ctx, cnt):
         if not err <= allow:
             ctx.viol(bkey + '/clause=error>10eps', '%s [%s]: err = %.3g * eps*||ref||; ranks %s' % (what, backend, err / (eps * nref) if nref else float('inf'), [int(v) for v in y.R]))
         res[backend] = (dy, ran_cpp)
+    if case.get('nswp'):
+        if 'cpp' in res and 'python' in res and nref > 0:
+            ctx.metric('exhausted_budget_backend_difference_over_norm/nswp=%d' % case['nswp'], dn.fro(res['cpp'][0] - res['python'][0]) / nref)
+            if res['cpp'][1] > 0:
+                ctx.nontrivial(('fast_matvec', 'nswp', case['nswp'], tuple(M), tuple(N), case['guess'], case['dtype']))
+            # differential clause: where the Python backend met the C11 bound within this budget, the port is held to the same bound on the same input and seed
+            allow = C_EPS * eps * nref + 1e3 * 2.3e-16 * srep
+            epy, ecpp = dn.fro(res['python'][0] - ref), dn.fro(res['cpp'][0] - ref)
+            if epy <= allow:
+                ctx.count('exhausted_budget_differential_checks')
+                if not ecpp <= 2 * allow:
+                    ctx.viol(key + '/clause=cpp-misses-bound-python-meets(nswp=%d)' % case['nswp'], '%s nswp=%d: python err %.3g, cpp err %.3g, bound %.3g (all absolute; ||ref||=%.3g)' % (
+                        what, case['nswp'], epy, ecpp, allow, nref))
+        return
     if 'cpp' in res and 'python' in res:
         diff = dn.fro(res['cpp'][0] - res['python'][0])
         if not diff <= 20 * eps * nref + 2e3 * 2.3e-16 * srep:
